@@ -12,8 +12,10 @@ import (
 	"encoding/json"
 	"flag"
 	"fmt"
+	"go/ast"
 	"go/parser"
 	"go/token"
+	"sort"
 	"io"
 	"os"
 	"path/filepath"
@@ -223,7 +225,17 @@ func main() {
 		}
 	}
 	// drop-in files
-	drops := []string{"pkg/verifhook/hook.go", "export_verif.go", "pkg/multicast/sim_verif.go"}
+	// ---- automatic yield points (one before every statement of the files listed in
+	// autoyield.txt) and simulation-aware locks (sync.Mutex / sync.RWMutex declarations of the
+	// library rewritten to the verifhook types, which behave like the runtime's unless
+	// verifhook.SimLocks is set by a run). Both are applied to the scratch copy only; a file that
+	// does not parse afterwards is left as it was and reported.
+	nAuto, autoSkipped := autoYield(abs, filepath.Join(*hooks, "autoyield.txt"))
+	nLocks, lockSkipped := rewriteLocks(abs)
+	skipped = append(skipped, autoSkipped...)
+	skipped = append(skipped, lockSkipped...)
+	fmt.Printf("instrument: %d automatic yield points, %d lock declarations rewritten\n", nAuto, nLocks)
+	drops := []string{"pkg/verifhook/hook.go", "pkg/verifhook/locks.go", "export_verif.go", "pkg/multicast/sim_verif.go"}
 	for _, d := range drops {
 		if err := copyFile(filepath.Join(abs, d), filepath.Join(*hooks, d)); err != nil {
 			fmt.Fprintln(os.Stderr, "instrument:", err)
@@ -245,4 +257,163 @@ func main() {
 		os.WriteFile(*report, b, 0o644)
 	}
 	fmt.Printf("instrument: %d sites inserted, %d skipped %v\n", len(inserted), len(skipped), skipped)
+}
+
+// autoYield inserts verifhook.Point("auto:<file>:<func>:<n>") before every statement of every
+// function body (nested blocks and case bodies included) of the listed files. n counts the
+// statements of one function in source order, so that the names do not depend on line numbers.
+func autoYield(root, list string) (int, []string) {
+	b, err := os.ReadFile(list)
+	if err != nil {
+		return 0, nil
+	}
+	total := 0
+	var skipped []string
+	for _, line := range strings.Split(string(b), "\n") {
+		file := strings.TrimSpace(line)
+		if file == "" || strings.HasPrefix(file, "#") {
+			continue
+		}
+		path := filepath.Join(root, file)
+		src, err := os.ReadFile(path)
+		if err != nil {
+			skipped = append(skipped, "auto:"+file)
+			continue
+		}
+		fset := token.NewFileSet()
+		f, err := parser.ParseFile(fset, path, src, parser.ParseComments)
+		if err != nil {
+			skipped = append(skipped, "auto:"+file)
+			continue
+		}
+		type ins struct {
+			off  int
+			text string
+		}
+		var inss []ins
+		base := strings.TrimSuffix(filepath.Base(file), ".go")
+		for _, d := range f.Decls {
+			fd, ok := d.(*ast.FuncDecl)
+			if !ok || fd.Body == nil {
+				continue
+			}
+			name := fd.Name.Name
+			if fd.Recv != nil && len(fd.Recv.List) == 1 {
+				t := fd.Recv.List[0].Type
+				if st, ok := t.(*ast.StarExpr); ok {
+					t = st.X
+				}
+				if id, ok := t.(*ast.Ident); ok {
+					name = id.Name + "." + name
+				}
+			}
+			n := 0
+			var visit func(list []ast.Stmt)
+			visit = func(list []ast.Stmt) {
+				for _, st := range list {
+					switch st.(type) {
+					case *ast.CaseClause, *ast.CommClause:
+						// the "statements" of a switch / select body are its clauses
+					default:
+						n++
+						inss = append(inss, ins{fset.Position(st.Pos()).Offset, fmt.Sprintf("verifhook.Point(%q); ", fmt.Sprintf("auto:%s:%s:%d", base, name, n))})
+					}
+					ast.Inspect(st, func(x ast.Node) bool {
+						switch y := x.(type) {
+						case *ast.BlockStmt:
+							if y != nil {
+								visit(y.List)
+							}
+							return false
+						case *ast.CaseClause:
+							visit(y.Body)
+							return false
+						case *ast.CommClause:
+							visit(y.Body)
+							return false
+						case *ast.FuncLit:
+							if y.Body != nil {
+								visit(y.Body.List)
+							}
+							return false
+						}
+						return true
+					})
+				}
+			}
+			visit(fd.Body.List)
+		}
+		sort.Slice(inss, func(i, j int) bool { return inss[i].off > inss[j].off })
+		out := string(src)
+		for _, i := range inss {
+			out = out[:i.off] + i.text + out[i.off:]
+		}
+		out2, ok := addImport(out)
+		if ok {
+			if _, perr := parser.ParseFile(token.NewFileSet(), path, out2, 0); perr != nil {
+				ok = false
+				if os.Getenv("INSTRUMENT_DEBUG") != "" {
+					fmt.Fprintln(os.Stderr, "auto:", file, perr)
+				}
+			}
+		}
+		if !ok {
+			skipped = append(skipped, "auto:"+file)
+			continue
+		}
+		if err := os.WriteFile(path, []byte(out2), 0o644); err != nil {
+			skipped = append(skipped, "auto:"+file)
+			continue
+		}
+		total += len(inss)
+	}
+	return total, skipped
+}
+
+var lockDecl = regexp.MustCompile(`(\s)sync\.(RW)?Mutex\b`)
+
+// rewriteLocks replaces the sync.Mutex / sync.RWMutex declarations of the library (root package,
+// pkg/, internal/; not tests, not examples) by verifhook.Mutex / verifhook.RWMutex.
+func rewriteLocks(root string) (int, []string) {
+	total := 0
+	var skipped []string
+	filepath.WalkDir(root, func(path string, d os.DirEntry, err error) error {
+		if err != nil {
+			return nil
+		}
+		rel, _ := filepath.Rel(root, path)
+		if d.IsDir() {
+			if rel == "examples" || rel == "pkg/verifhook" || strings.HasPrefix(d.Name(), ".") && rel != "." {
+				return filepath.SkipDir
+			}
+			return nil
+		}
+		if !strings.HasSuffix(path, ".go") || strings.HasSuffix(path, "_test.go") {
+			return nil
+		}
+		b, err := os.ReadFile(path)
+		if err != nil || !lockDecl.Match(b) {
+			return nil
+		}
+		n := len(lockDecl.FindAll(b, -1))
+		out := lockDecl.ReplaceAllString(string(b), "${1}verifhook.${2}Mutex")
+		if !strings.Contains(strings.ReplaceAll(out, "\"sync\"", ""), "sync.") {
+			out = strings.Replace(out, "\t\"sync\"\n", "", 1)
+		}
+		out2, ok := addImport(out)
+		if ok {
+			if _, perr := parser.ParseFile(token.NewFileSet(), path, out2, 0); perr != nil {
+				ok = false
+			}
+		}
+		if !ok {
+			skipped = append(skipped, "locks:"+rel)
+			return nil
+		}
+		if os.WriteFile(path, []byte(out2), 0o644) == nil {
+			total += n
+		}
+		return nil
+	})
+	return total, skipped
 }
